@@ -186,7 +186,7 @@ def run(ctx):
     except TE.Refuse as e:
         ctx.obligation("translate_exprs", False, f"translator refused: {e}")
         tr_ok = False
-    ok, out = ctx.build(["proofs/AgendaProofs.vo", "proofs/Agenda2Proofs.vo", "proofs/PrefixChart.vo", "proofs/CfgTrees.vo", "proofs/ExpectProofs.vo", "proofs/TotalStringsProofs.vo"]) if tr_ok else (False, "translator")
+    ok, out = ctx.build(["proofs/AgendaProofs.vo", "proofs/Agenda2Proofs.vo", "proofs/PrefixChart.vo", "proofs/CfgTrees.vo", "proofs/ExpectProofs.vo", "proofs/TotalStringsProofs.vo", "proofs/ExpectTotalProofs.vo"]) if tr_ok else (False, "translator")
     if ok:
         ctx.prove("props/C08.v")
     else:
